@@ -299,48 +299,49 @@ REPLAY.update({
 # the std side is the str method the property names plus the offset/direction bookkeeping of konst's documentation.
 # Whitespace trimming is std's `trim_ascii*` (the property's wording; `str::trim` also removes Unicode whitespace).
 # An empty pattern is outside the comparison (std's `split_once("")`/`trim_matches("")` have their own conventions).
+PA = "parser_any"    # vlib/xsearch.py parser_binding(probe=False): any direction / split flag of the Lean state is moved to a buildable one
 _E = "a1.is_empty()"
 REPLAY.update({
-    "Parser.fn_start_offset": ([P], "a0.start_offset()", "a0_off"),
-    "Parser.fn_end_offset": ([P], "a0.end_offset()", "a0_off + a0_s.len()"),
-    "Parser.fn_is_empty": ([P], "a0.is_empty()", "a0_s.is_empty()"),
-    "Parser.fn_len": ([P], "a0.len()", "a0_s.len()"),
-    "Parser.fn_remainder": ([P], "a0.remainder()", "a0_s"),
-    "Parser.skip": ([P, U], "pshow1(a0.skip(a1))",
+    "Parser.fn_start_offset": ([PA], "a0.start_offset()", "a0_off"),
+    "Parser.fn_end_offset": ([PA], "a0.end_offset()", "a0_off + a0_s.len()"),
+    "Parser.fn_is_empty": ([PA], "a0.is_empty()", "a0_s.is_empty()"),
+    "Parser.fn_len": ([PA], "a0.len()", "a0_s.len()"),
+    "Parser.fn_remainder": ([PA], "a0.remainder()", "a0_s"),
+    "Parser.skip": ([PA, U], "pshow1(a0.skip(a1))",
                     "{ let mut n = a1.min(a0_s.len()); while !a0_s.is_char_boundary(n) { n += 1 } (&a0_s[n..], a0_off + n, PD::FromStart) }"),
-    "Parser.skip_back": ([P, U], "pshow1(a0.skip_back(a1))",
+    "Parser.skip_back": ([PA, U], "pshow1(a0.skip_back(a1))",
                          "{ let mut n = a0_s.len().saturating_sub(a1); while !a0_s.is_char_boundary(n) { n -= 1 } (&a0_s[..n], a0_off, PD::FromEnd) }"),
-    "Parser.strip_prefix": ([P, S], "pshow(a0.strip_prefix(a1))",
+    "Parser.strip_prefix": ([PA, S], "pshow(a0.strip_prefix(a1))",
                             "match a0_s.strip_prefix(a1) { Some(r) => Ok((r, a0_off + a1.len(), PD::FromStart)), None => Err((a0_off, PD::FromStart, EK::Strip)) }"),
-    "Parser.strip_suffix": ([P, S], "pshow(a0.strip_suffix(a1))",
+    "Parser.strip_suffix": ([PA, S], "pshow(a0.strip_suffix(a1))",
                             "match a0_s.strip_suffix(a1) { Some(r) => Ok((r, a0_off, PD::FromEnd)), None => Err((a0_off + a0_s.len(), PD::FromEnd, EK::Strip)) }"),
-    "Parser.trim": ([P], "pshow1(a0.trim())", "{ let t = a0_s.trim_ascii_start(); (t.trim_ascii_end(), a0_off + (a0_s.len() - t.len()), PD::FromBoth) }"),
-    "Parser.trim_start": ([P], "pshow1(a0.trim_start())", "{ let t = a0_s.trim_ascii_start(); (t, a0_off + (a0_s.len() - t.len()), PD::FromStart) }"),
-    "Parser.trim_end": ([P], "pshow1(a0.trim_end())", "(a0_s.trim_ascii_end(), a0_off, PD::FromEnd)"),
-    "Parser.trim_matches": ([P, S], "pshow1(a0.trim_matches(a1))",
+    "Parser.trim": ([PA], "pshow1(a0.trim())", "{ let t = a0_s.trim_ascii_start(); (t.trim_ascii_end(), a0_off + (a0_s.len() - t.len()), PD::FromBoth) }"),
+    "Parser.trim_start": ([PA], "pshow1(a0.trim_start())", "{ let t = a0_s.trim_ascii_start(); (t, a0_off + (a0_s.len() - t.len()), PD::FromStart) }"),
+    "Parser.trim_end": ([PA], "pshow1(a0.trim_end())", "(a0_s.trim_ascii_end(), a0_off, PD::FromEnd)"),
+    "Parser.trim_matches": ([PA, S], "pshow1(a0.trim_matches(a1))",
                             "{ let t = a0_s.trim_start_matches(a1); (t.trim_end_matches(a1), a0_off + (a0_s.len() - t.len()), PD::FromBoth) }", _E),
-    "Parser.trim_start_matches": ([P, S], "pshow1(a0.trim_start_matches(a1))",
+    "Parser.trim_start_matches": ([PA, S], "pshow1(a0.trim_start_matches(a1))",
                                   "{ let t = a0_s.trim_start_matches(a1); (t, a0_off + (a0_s.len() - t.len()), PD::FromStart) }", _E),
-    "Parser.trim_end_matches": ([P, S], "pshow1(a0.trim_end_matches(a1))", "(a0_s.trim_end_matches(a1), a0_off, PD::FromEnd)", _E),
-    "Parser.find_skip": ([P, S], "pshow(a0.find_skip(a1))",
+    "Parser.trim_end_matches": ([PA, S], "pshow1(a0.trim_end_matches(a1))", "(a0_s.trim_end_matches(a1), a0_off, PD::FromEnd)", _E),
+    "Parser.find_skip": ([PA, S], "pshow(a0.find_skip(a1))",
                          "match a0_s.find(a1) { Some(i) => Ok((&a0_s[i + a1.len()..], a0_off + i + a1.len(), PD::FromStart)), None => Err((a0_off, PD::FromStart, EK::Find)) }"),
-    "Parser.rfind_skip": ([P, S], "pshow(a0.rfind_skip(a1))",
+    "Parser.rfind_skip": ([PA, S], "pshow(a0.rfind_skip(a1))",
                           "match a0_s.rfind(a1) { Some(i) => Ok((&a0_s[..i], a0_off, PD::FromEnd)), None => Err((a0_off + a0_s.len(), PD::FromEnd, EK::Find)) }", _E),
-    "Parser.split": ([P, S], "pshow2(a0.split(a1))",
+    "Parser.split": ([PA, S], "pshow2(a0.split(a1))",
                      "match a0_s.split_once(a1) { Some((b, a)) => Ok::<_, PErr>((b, a, a0_off + (a0_s.len() - a.len()), PD::FromStart)), "
                      "None => Ok((a0_s, &a0_s[a0_s.len()..], a0_off + a0_s.len(), PD::FromStart)) }", _E),
-    "Parser.rsplit": ([P, S], "pshow2(a0.rsplit(a1))",
+    "Parser.rsplit": ([PA, S], "pshow2(a0.rsplit(a1))",
                       "match a0_s.rsplit_once(a1) { Some((b, a)) => Ok::<_, PErr>((a, b, a0_off, PD::FromEnd)), None => Ok((a0_s, &a0_s[..0], a0_off, PD::FromEnd)) }", _E),
-    "Parser.split_terminator": ([P, S], "pshow2(a0.split_terminator(a1))",
+    "Parser.split_terminator": ([PA, S], "pshow2(a0.split_terminator(a1))",
                                 "if a0_s.is_empty() { Err((a0_off, PD::FromStart, EK::DelimiterNotFound)) } else { match a0_s.split_once(a1) { "
                                 "Some((b, a)) => Ok((b, a, a0_off + (a0_s.len() - a.len()), PD::FromStart)), None => Err((a0_off, PD::FromStart, EK::DelimiterNotFound)) } }", _E),
-    "Parser.rsplit_terminator": ([P, S], "pshow2(a0.rsplit_terminator(a1))",
+    "Parser.rsplit_terminator": ([PA, S], "pshow2(a0.rsplit_terminator(a1))",
                                  "if a0_s.is_empty() { Err((a0_off, PD::FromEnd, EK::DelimiterNotFound)) } else { match a0_s.rsplit_once(a1) { "
                                  "Some((b, a)) => Ok((a, b, a0_off, PD::FromEnd)), None => Err((a0_off + a0_s.len(), PD::FromEnd, EK::DelimiterNotFound)) } }", _E),
-    "Parser.split_keep": ([P, S], "pshow2(a0.split_keep(a1))",
+    "Parser.split_keep": ([PA, S], "pshow2(a0.split_keep(a1))",
                           "match a0_s.find(a1) { Some(i) => Ok::<_, PErr>((&a0_s[..i], &a0_s[i..], a0_off + i, PD::FromStart)), "
                           "None => Ok((a0_s, &a0_s[a0_s.len()..], a0_off + a0_s.len(), PD::FromStart)) }", _E),
-    **{f"Parser.parse_{t}": ([P], f"pshowv(a0.parse_{t}())", f"parse_int_std::<{t}>(a0_s, a0_off, {'true' if t[0] == 'i' else 'false'})", "a0_s.starts_with('+')")
+    **{f"Parser.parse_{t}": ([PA], f"pshowv(a0.parse_{t}())", f"parse_int_std::<{t}>(a0_s, a0_off, {'true' if t[0] == 'i' else 'false'})", "a0_s.starts_with('+')")
        for t in ("u8", "u16", "u32", "u64", "u128", "usize", "i8", "i16", "i32", "i64", "i128", "isize")},
-    "Parser.parse_bool": ([P], "pshowv(a0.parse_bool())", "parse_bool_std(a0_s, a0_off)"),
+    "Parser.parse_bool": ([PA], "pshowv(a0.parse_bool())", "parse_bool_std(a0_s, a0_off)"),
 })
